@@ -3,6 +3,10 @@ SHELL := /bin/bash
 export GOFLAGS := -mod=mod
 export GOPROXY := off
 COQ_TIMEOUT ?= 3000
+# experiments (seeded changes, fix development) can point the harness at a scratch
+# worktree instead of /repo: VERIF_REPO=/tmp/wt bin/check Cxx ; registered commands use /repo
+VERIF_REPO ?= /repo
+SFX := $(shell echo $(VERIF_REPO) | md5sum | cut -c1-8)
 JOBS ?= 16
 
 .PHONY: setup coq coq-only coqproject harness harness-all clean check-clean coqchk
@@ -30,8 +34,13 @@ coq-only: coqproject
 # cannot break the build of another: make harness P=c13
 harness:
 	@mkdir -p build
-	@cmp -s /repo/go.sum harness/go.sum || cp /repo/go.sum harness/go.sum
+	@cmp -s $(VERIF_REPO)/go.sum harness/go.sum || cp $(VERIF_REPO)/go.sum harness/go.sum
+ifeq ($(VERIF_REPO),/repo)
 	cd harness && flock ../build/go.lock go build -tags verif -o ../build/harness_$(P) ./$(P)
+else
+	@sed 's|=> /repo|=> $(VERIF_REPO)|' harness/go.mod > harness/alt_$(SFX).mod && cp harness/go.sum harness/alt_$(SFX).sum
+	cd harness && flock ../build/go.lock go build -modfile=alt_$(SFX).mod -tags verif -o ../build/harness_$(P)_$(SFX) ./$(P); r=$$?; rm -f alt_$(SFX).mod alt_$(SFX).sum; exit $$r
+endif
 
 harness-all:
 	@for d in harness/c[0-9]*; do $(MAKE) --no-print-directory harness P=$$(basename $$d) || exit 1; done
